@@ -684,3 +684,113 @@ def native_checks(rng, tier):
                      "inside loops), when/else when (1-3 branches), unique labels and gotos to any label of the flow, `$x = ...` with/without "
                      "comment, pass/stop/return, execute, do, events; 1-3 statements per block, 20%% single pass/ellipsis blocks"
                      % (n_prog1, max_depth1))
+
+
+# =============================================================================================
+# (6), (7): what the RUNTIMES store / add at run time (the loaders behind the compilers)
+# =============================================================================================
+_native_checks_compilers = native_checks
+
+V1_LOAD_CLAUSE = ("the elements RuntimeV1_0._load_flow_config stores for a flow are closed: every relative offset lands in [0, len] "
+                  "(also when `meta` statements occur at the start of nested blocks)")
+V2_ADD_CLAUSE = ("a flow added at run time (AddFlowsAction) is compiled like a loaded one: every jump / fork / failure / loop label "
+                 "resolves through the flow's jump table and only primitives remain")
+
+
+def _v1_meta_programs():
+    meta = ["meta", "  note: \"x\""]
+    simple = ["bot say hi"]
+    progs = []
+    for lead in ([], meta):
+        for tail in ([], ["bot done"]):
+            progs.append(lead + ["if $a"] + _ind(meta + simple) + tail)
+            progs.append(lead + ["if $a"] + _ind(simple) + ["else"] + _ind(meta + simple) + tail)
+            progs.append(lead + ["while $n < 3"] + _ind(["$n = $n + 1", "if $n == 7"] + _ind(meta + ["break"])) + tail)
+            progs.append(lead + ["while $n < 3"] + _ind(meta + ["$n = $n + 1", "if $n == 1"] + _ind(["continue"]) + ["else"] + _ind(["break"])) + tail)
+            progs.append(lead + ["when user said yes"] + _ind(meta + simple) + ["else when user said no"] + _ind(simple) + tail)
+            progs.append(lead + ["if $a"] + _ind(["if $b"] + _ind(meta + simple) + ["else"] + _ind(simple)) + tail)
+            progs.append(lead + ["label top"] + simple + ["if $again"] + _ind(meta + ["goto top"]) + tail)
+            progs.append(lead + simple + tail)
+    return progs
+
+
+def _load_checks(rng, tier):
+    from types import SimpleNamespace
+    from nemoguardrails.colang.v1_0.runtime.runtime import RuntimeV1_0
+    rec = _Rec("RuntimeV1_0._load_flow_config", "nemoguardrails/colang/v1_0/runtime/runtime.py", V1_LOAD_CLAUSE)
+    srcs = []
+    for i, body in enumerate(_v1_meta_programs()):
+        srcs.append("define flow m%d\n%s\n" % (i, "\n".join(_v1_render(_ind(["user start"] + body)))))
+    for i in range(120 if tier == "thorough" else 40):
+        srcs.append(_v1_flow(rng, "q%d" % i, rng.randint(1, 3)))
+    for src in srcs:
+        flows, why = _v1_compile(src)
+        if flows is None:
+            rec.rejected += 1
+            continue
+        for f in flows:
+            fake = SimpleNamespace(flow_configs={})
+            rec.n += 1
+            rec.seen.add(src)
+            try:
+                RuntimeV1_0._load_flow_config(fake, f)
+            except Exception as ex:
+                rec.fail(src, "raised %s: %s" % (type(ex).__name__, str(ex)[:200]))
+                continue
+            for fid, fc in fake.flow_configs.items():
+                probs = _v1_problems(fc.elements)
+                if probs:
+                    rec.fail("flow %r loaded from:\n%s" % (fid, src), "; ".join(probs[:4]))
+    yield rec.record("%d programs: `meta` statements at the top and at the start of if / else / while / when / nested-if bodies, before "
+                     "break / continue / goto, with and without a trailing step, plus seeded random 1.0 flows; each flow compiled by the real "
+                     "parser and stored by the real RuntimeV1_0._load_flow_config (called on a stand-in object with an empty registry)" % len(srcs))
+
+
+def _add_flows_checks(rng, tier):
+    """Colang 2.x: flows registered at run time through the real RuntimeV2_x._add_flows_action"""
+    import asyncio
+    rec = _Rec("RuntimeV2_x._add_flows_action", "nemoguardrails/colang/v2_x/runtime/runtime.py", V2_ADD_CLAUSE)
+    try:
+        from nemoguardrails import RailsConfig
+        from nemoguardrails.colang.v2_x.runtime.runtime import RuntimeV2_x
+        from nemoguardrails.colang.v2_x.runtime.statemachine import initialize_state
+        from nemoguardrails.colang.v2_x.runtime.flows import State
+    except Exception as ex:
+        rec.fail("import", "%s: %s" % (type(ex).__name__, ex))
+        yield rec.record("import failed")
+        return
+    kernels = [k for kind, k in _v2_kernels() if kind != "stmt"]
+    step = 1 if tier == "thorough" else max(1, len(kernels) // 40)
+    with _quiet():
+        cfg = RailsConfig.from_content(colang_content="flow main\n  match Never()\n", yaml_content="colang_version: 2.x\n")
+        rt = RuntimeV2_x(cfg)
+    for i, k in enumerate(kernels[::step]):
+        body = "\n".join("  " + l for l in ["match Start()"] + k)
+        src = "flow dyn%d\n%s\n" % (i, body)
+        state = State(flow_states={}, flow_configs=dict(rt.flow_configs), rails_config=cfg)
+        try:
+            with _quiet():
+                initialize_state(state)
+                before = set(state.flow_configs)
+                asyncio.run(rt._add_flows_action(state, config=src))
+        except Exception as ex:
+            rec.rejected += 1
+            continue
+        for fid in set(state.flow_configs) - before:
+            fc = state.flow_configs[fid]
+            rec.n += 1
+            rec.seen.add(src)
+            probs = _v2_problems(fc.elements, fc.element_labels, _count_loop_jumps(fc.elements))
+            if probs:
+                rec.fail("flow `%s` added at run time:\n%s" % (fid, src), "; ".join(probs[:4]))
+    yield rec.record("%d of the enumerated 2.x kernels (if/elif/else, while with break/continue, when, and/or groups) added one by one through "
+                     "the real AddFlowsAction handler to an initialised state; flows the parser rejects are skipped" % len(kernels[::step]))
+
+
+def native_checks(rng, tier):
+    for rec in _native_checks_compilers(rng, tier):
+        yield rec
+    for rec in _load_checks(rng, tier):
+        yield rec
+    for rec in _add_flows_checks(rng, tier):
+        yield rec
